@@ -365,9 +365,7 @@ def known(ctx, c):
         return None
     def some_site(*names):
         return any(all(n in s.split("<") for n in names) for s in sites)
-    # coap_parse_oscore_conf_mem stops at the first entry it cannot store and returns the incomplete configuration
-    if w[1] == "osc" and some_site("get_split_entry", "coap_parse_oscore_conf_mem") and what <= {"canary", "ledger", "lsan"}:
-        return "oscore-conf-alloc-failure-ignored"
+    # (oscore-conf-alloc-failure-ignored was open here until the fix of coap_parse_oscore_conf_mem: nothing in osc is excused any more)
     # (block2-partial-body-on-alloc-failure and block1-wrong-body-after-build-body-failure were open here until the fixes
     #  dd57cca / 28062c6: no case of b1, b2, b1raw, b2raw, wkc, obsblk may be excused any more)
     return None
